@@ -678,6 +678,17 @@ def formula_atoms(f, out=None):
     return out
 
 
+_NEGATED_OPS = {ast.NotEq: ast.Eq, ast.NotIn: ast.In, ast.IsNot: ast.Is}
+
+
+def _positive(test):
+    """(atom, negated): `a != b`, `a not in b`, `a is not b` are the negations of the atoms `a == b`, `a in b`, `a is b`."""
+    if isinstance(test, ast.Compare) and len(test.ops) == 1 and type(test.ops[0]) in _NEGATED_OPS:
+        pos = ast.Compare(left=test.left, ops=[_NEGATED_OPS[type(test.ops[0])]()], comparators=test.comparators)
+        return ast.copy_location(pos, test), True
+    return test, False
+
+
 def _split_atoms(test, out):
     if isinstance(test, ast.BoolOp):
         for v in test.values:
@@ -685,7 +696,8 @@ def _split_atoms(test, out):
     elif isinstance(test, ast.UnaryOp) and isinstance(test.op, ast.Not):
         _split_atoms(test.operand, out)
     else:
-        out.setdefault(U(test), test)
+        pos, _ = _positive(test)
+        out.setdefault(U(pos), pos)
 
 
 def eval_formula(f, assign):
@@ -710,4 +722,5 @@ def _eval_test(test, assign):
         return all(vals) if isinstance(test.op, ast.And) else any(vals)
     if isinstance(test, ast.UnaryOp) and isinstance(test.op, ast.Not):
         return not _eval_test(test.operand, assign)
-    return assign[U(test)]
+    pos, negated = _positive(test)
+    return assign[U(pos)] != negated
